@@ -99,5 +99,6 @@ func init() {
 		Assumptions: []string{"BLAKE2b-256, base64 and both node encoders are re-implemented in harness/ref (RFC 7693 test vector checked in C14)"},
 		Gen:         genC08,
 		Run:         runC08,
+		Enumerate:   enumWide,
 	})
 }
